@@ -13,7 +13,8 @@ import Dashu.Proofs.Panic.Utf8
    (2) for the operations whose entry guards are mirrored from the code (`Dashu.Model.Panic.guard*`), the guard
        fails with kind `k` IFF the documentation names `k` — for all arguments;
    (3) termination: `farey_neighbors` returns within `limit` iterations and needs `limit` of them on `1/(limit+1)`;
-       the `ln` series loop terminates for positive input and provably never for negative input;
+       the `ln` series loop terminates for positive input (the only input that reaches it since fix b0e87a3, by
+       `fbig_ln_guard`) and provably never for negative input (as-is counterexample for the pre-fix code);
    (4) the float parser's byte-offset slicing only cuts at char boundaries of well-formed UTF-8.
 
   /- FULL STATEMENT (not provable with the present models; kept for the record):
@@ -23,8 +24,8 @@ import Dashu.Proofs.Panic.Utf8
      where `run` is an executable model of the WHOLE implementation of every public operation.  Such a model exists
      only for the entry guards (2) and the two loops (3); all other operations are decided by the correspondence
      run against the transcription (evidence lists them as explored, not proved).  The statement is moreover
-     FALSE for the current code: see `ln_negative_never_terminates`, `farey_needs_limit_steps` and the findings
-     recorded for C16 in known_findings.jsonl. -/
+     FALSE for the current code: see `farey_needs_limit_steps` and the findings recorded for C16 in
+     known_findings.jsonl (`ln_negative_never_terminates` was the second counterexample until fix b0e87a3). -/
 -/
 namespace Dashu.Props.C16
 open Dashu.Spec.Panics Dashu.Model.Panic Dashu.Proofs.Panic
@@ -109,6 +110,42 @@ theorem fbig_sqrt_guard (W : Nat) (a : FArg) (k : Kind) (hc : a.canonical) (hm :
 theorem fbig_ulp_guard (W : Nat) (a : FArg) (k : Kind) (hc : a.canonical) (hm : a.moderate) :
     guardFUlp a = .error k ↔ documented W .fUlp [.flt a] = some k := guardFUlp_iff W a k hc hm
 
+-- guards that exist since the fix: commits c27ca7f, 65edb1e, 0ffa05d, d9f681e, b0e87a3 (full statements for the patched code)
+
+theorem ubig_is_multiple_of_const_guard (W a d : Nat) (k : Kind) (hd : d < 2 ^ (2 * W)) :
+    guardIsMultipleOfConst d = .error k ↔ documented W .uIsMultipleOfConst [.int a, .int d] = some k :=
+  guardUIsMultipleOfConst_iff W a d k hd
+
+theorem ibig_is_multiple_of_const_guard (W : Nat) (a : Int) (d : Nat) (k : Kind) (hd : d < 2 ^ (2 * W)) :
+    guardIsMultipleOfConst d = .error k ↔ documented W .iIsMultipleOfConst [.int a, .int d] = some k :=
+  guardIIsMultipleOfConst_iff W a d k hd
+
+theorem fbig_split_at_point_guard (W : Nat) (a : FArg) (k : Kind) (hc : a.canonical) (hm : a.moderate) :
+    guardFSplitAtPoint a = .error k ↔ documented W .fSplitAtPoint [.flt a] = some k :=
+  guardFSplitAtPoint_iff W a k hc hm
+
+theorem fbig_euclid_guard (W : Nat) (a b : FArg) (k : Kind) (op : Op) (hop : op ∈ [Op.fDivEuclid, .fRemEuclid])
+    (hc : (a.canonical ∧ b.canonical ∧ sameKind a b)) (hm : (a.moderate ∧ b.moderate)) :
+    guardFEuclid W a b = .error k ↔ documented W op [.flt a, .flt b] = some k :=
+  guardFEuclid_iff W a b k op hop hc hm
+
+theorem fbig_powf_guard (W : Nat) (a b : FArg) (k : Kind)
+    (hc : (a.canonical ∧ b.canonical ∧ sameKind a b)) (hm : (a.moderate ∧ b.moderate)) :
+    guardFPowf a b = .error k ↔ documented W .fPowf [.flt a, .flt b] = some k := guardFPowf_iff W a b k hc hm
+
+/-- `ln`: finite, limited precision, and (since b0e87a3) `x > 0` — exactly the documented conditions -/
+theorem fbig_ln_guard (W : Nat) (a : FArg) (k : Kind) (hc : a.canonical) (hm : a.moderate) :
+    guardFLn a = .error k ↔ documented W .fLn [.flt a] = some k := guardFLn_iff W a k hc hm
+
+/-- `ln_1p`: finite, limited precision, and (since b0e87a3) `x > -1` -/
+theorem fbig_ln_1p_guard (W : Nat) (a : FArg) (k : Kind) (hc : a.canonical) (hm : a.moderate) :
+    guardFLn1p a = .error k ↔ documented W .fLn1p [.flt a] = some k := guardFLn1p_iff W a k hc hm
+
+example : guardFLn ⟨2, -3, 0, 14, 'Z'⟩ = .error .logInvalid := by decide
+example : guardFLn1p ⟨10, -1, 0, 5, 'H'⟩ = .error .logInvalid := by decide
+example : guardFLn1p ⟨10, -5, -1, 5, 'H'⟩ = .ok () := by decide
+example : guardFEuclid 64 ⟨2, 0, 1, 0, 'Z'⟩ ⟨2, 3, 0, 0, 'Z'⟩ = .error .infinite := by decide
+
 -- non-vacuity of the float hypotheses: −∞ / 12345·2^-2 at precision 0 is a canonical, moderate pair and the
 -- guard fails with Infinite; 3/0 at precision 5 fails with DivideByZero
 example : guardFDiv 64 ⟨2, 0, -1, 0, 'Z'⟩ ⟨2, 12345, -2, 0, 'Z'⟩ = .error .infinite := by decide
@@ -138,8 +175,10 @@ theorem ln_positive_terminates (x eps : Rat) (h1 : 1 ≤ x) (h2 : x ≤ 2) (he :
     (hN : (x - 1) / (x + 1) ≤ 9 ^ (N + 1) * eps) : lnSeries x eps (N + 1) ≠ none :=
   lnSeries_terminates x eps h1 h2 he N hN
 
-/-- `ln` of a negative number (scaled into `[-2, -1)` by the same code): the stopping test of the series loop is
-    never satisfied.  The code has no guard for this (only a `debug_assert!`): the finding. -/
+/-- AS-IS COUNTEREXAMPLE for the code before fix b0e87a3 (kept: it shows the guard `fbig_ln_guard` is NECESSARY):
+    the series loop entered with a negative number (scaled into `[-2, -1)` by the same scaling code) never satisfies
+    its stopping test.  Since b0e87a3 `ln_internal` panics before the loop for `x ≤ 0` (`fbig_ln_guard`), so the loop
+    is only entered under the hypothesis of `ln_positive_terminates`. -/
 theorem ln_negative_never_terminates (x eps : Rat) (h1 : -2 ≤ x) (h2 : x < -1) (he : eps < 1) :
     ∀ fuel, lnSeries x eps fuel = none := lnSeries_diverges x eps h1 h2 he
 
